@@ -73,6 +73,7 @@ def section():
     r1, s1 = mutant_rows({'M1', 'M2'})
     r2, s2 = mutant_rows({'M3', 'M4'})
     r3, s3 = mutant_rows({'M5', 'M6'})
+    r4, s4 = mutant_rows({'M7', 'M8'})
     rr, nr, alarms = refactor_rows()
     out = []
     out.append("## 11. Seeded changes and refactorings: which check catches which, and which stays silent\n")
@@ -144,7 +145,28 @@ needs 30 s of real time and is reported by the thorough tier only.  {s3['notviol
 
 {HEAD}
 """ + "\n".join(r3) + "\n")
-    out.append(f"""### 11.{4 if r3 else 3} Behaviour-preserving refactorings - the checks must stay silent
+    if r4:
+        out.append(f"""### 11.4 Round 4 - "a maintainer's refactoring gone wrong / an optimisation with a gap"
+
+The sub-agents were told the titles of the six earlier changes of their property and were asked for
+changes of the kind that get through review: de-duplicating refactorings that reorder two effects
+(push before fetch, cost after transfer, `?` that skips a clean-up), iterator rewrites that drop an
+error, narrowing integer types, fast paths and caches with one missing invalidation or one
+off-by-one guard, coalesced copies keyed on a coincidence.  {s4['n']} changes so far.  **{s4['own']} are reported by the
+property's own quick check; {s4['missed_first']} of them only after strengthenings** - and two of the misses (C07-M7,
+C08-M7) were a defect of the machinery, not of the bounds: the unit that constructs the case existed,
+but the known-finding defect models were evaluated on post-step memory and "explained" an instruction
+that had overwritten its own extension word (§7.4).  The other strengthenings close classes the earlier
+units left open: refused steps inside sequences, placements at region ends, stores into the instruction
+stream at both alignments, coincidences among three ELF segments, call numbers above 2^16, argument
+blocks over the call's own bookkeeping, zero / equal compare values without a clear source, 65536 register
+rewrites between two cost queries, the whole address space at a stride, a vector table that the handlers
+rewrite, lines cut into three pieces on the wire, the socket stream up to the end of the connection.
+{s4['notrep']} not reported; {s4['notviol']} judged not to violate the property as stated.
+
+{HEAD}
+""" + "\n".join(r4) + "\n")
+    out.append(f"""### 11.{5 if r4 else (4 if r3 else 3)} Behaviour-preserving refactorings - the checks must stay silent
 
 The opposite experiment: {nr} refactorings (two per property for {refactor_props()} properties; half of them were
 explicitly asked to be *correct* optimisations that carry state across operations - memos with
